@@ -385,8 +385,8 @@ theorem dry_closeLoop (env : PEnv) (d : Handle) (fuel : Nat) (tr : Trace) (hdir 
     | err e => exact True.intro
     | eof => exact True.intro
 
-theorem dry_closeStdin (env : PEnv) (md : Maildir) (tr : Trace) (hmd : DryMd tr md) :
-    wp R (DrySpoolCall env cm sa) (closeStdin md) (fun _ _ => True) tr := by
+theorem dry_closeStdin (env : PEnv) (fuel : Nat) (md : Maildir) (tr : Trace) (hmd : DryMd tr md) :
+    wp R (DrySpoolCall env cm sa) (closeStdin fuel md) (fun _ _ => True) tr := by
   have hpath : ∀ L, DrySpoolCall env cm sa (tr ++ L) (.rmdir md.path) :=
     fun L => hmd.path.imp id (fun h => .inr (dry_IsNew.mono h L))
   have hroot : ∀ L, DrySpoolCall env cm sa (tr ++ L) (.rmdir md.root) :=
@@ -403,7 +403,7 @@ theorem dry_closeStdin (env : PEnv) (md : Maildir) (tr : Trace) (hmd : DryMd tr 
     unfold closeStdin
     simp only [bind_eq, pure_eq, call_bind, call_bind', hdir, ret_bind]
     refine wp_call hd fun r0 _ => ?_
-    refine wp_bind_ext (dry_closeLoop env d 64 _ (hd.mono _)) ?_
+    refine wp_bind_ext (dry_closeLoop env d fuel _ (hd.mono _)) ?_
     intro _ L _
     refine wp_call (by simpa [List.append_assoc] using hpath ([(Call.rewinddir d, r0)] ++ L)) fun r1 _ => ?_
     refine wp_call (by simpa [List.append_assoc] using hroot ([(Call.rewinddir d, r0)] ++ L ++ [(Call.rmdir md.path, r1)]))
@@ -428,12 +428,12 @@ theorem dry_paths (env : PEnv) (orc : EvalOracles) (input : Bytes) (b : ConfBloc
       · refine wp_bind_ext (dry_maildirStdin env input _) ?_
         intro x L hx
         split
-        · refine wp_bind_ext (dry_closeStdin env x.1 _ hx) ?_
+        · refine wp_bind_ext (dry_closeStdin env _ x.1 _ hx) ?_
           intro _ L2 _
           exact ih _ _
-        · refine wp_bind_ext (dry_walk env orc b.expr hd hcm hsa 64 x.1 _ _ hx) ?_
+        · refine wp_bind_ext (dry_walk env orc b.expr hd hcm hsa _ x.1 _ _ hx) ?_
           intro y L2 hy
-          refine wp_bind_ext (dry_closeStdin env y.2 _ hy) ?_
+          refine wp_bind_ext (dry_closeStdin env _ y.2 _ hy) ?_
           intro _ L3 _
           exact ih _ _
       · rename_i hs
